@@ -43,6 +43,14 @@ def events(ctx):
     from ..ops_ecss import mk_tc, mk_tm
     from ..ops_cfdp import mk_pdu
     rng = ctx.rng
+    # clean packets (and one single-bit fault each) of every size around the octet boundaries of the length field: the
+    # standalone check must agree with the decoder for all of them
+    for n in list(range(236, 262)) + list(range(492, 520)) + list(range(1004, 1030)) + ctx.q([], list(range(2040, 2060)) + [65000]):
+        for kind in ("tc", "tm"):
+            p = rnd_tc(rng, n) if kind == "tc" else dict(rnd_tm(rng), data=[rng.randrange(256) for _ in range(n)])
+            base = {"kind": kind, "p": p, "pk": "none", "cfg": {"none": 0}, "mut": []}
+            yield record("fault.decode", dict(base, off=0, w=0, pat=0))
+            yield record("fault.decode", dict(base, off=48 + rng.randrange(8 * n + 8), w=1, pat=1))
     pus_len = set(range(32, 48))
     pdu_len = set(range(0, 32))
     for _ in range(ctx.q(2500, 60000)):
